@@ -495,6 +495,13 @@ func claimedLevel(verif, prop string) string {
 
 func assumptionsFor(v *Verifier, names []string) []string {
 	out := append([]string(nil), globalAssumptions...)
+	out = append(out,
+		"every `relies` clause (data-structure invariant assumed at function entry, re-established by the writers' postconditions) and every `postulate` clause (ghost slot denotations tvs/ias, ghost accounting) used by these functions -- listed one by one under coverage.trusted_base",
+		"the read functions' denotation postulates stand for: the record codecs are inverse (C14), the file is append-only below the last root (C09), and a node reachable from a live root has not been recycled (C10, paper argument; known finding D6 marks where it breaks)",
+		"lemmas about the specification functions that the SMT prelude states as axioms (L1: no member of a heap-ordered search tree outranks the root; cnt/sumb/ibytes >= 0) are proved in Lean 4 + Mathlib over hand-transcribed definitions (/verif/lean)",
+		"function values: a closure handed to a function whose contract assumes a functype contract for that parameter is verified against the same clauses by construction of the contract file (not checked by the engine); the walkDir/visitDir classification of the chooser functions is a `global` clause justified by their own verified contracts",
+		"extern contracts for encoding/json (Marshal, Unmarshal incl. the effect of Collection.UnmarshalJSON on the decoded map), sort.Strings (a permutation), StoreFile/io (A5), and built-in models of sync, sync/atomic, encoding/binary, bytes.Buffer, errors, fmt, math/rand",
+		"user callbacks and visitors are neutral (A9): they touch no gkvlite state and, for visitors, only append to the ghost visit log")
 	for _, n := range names {
 		if c := v.cf.Funcs[n]; c != nil && c.Trusted {
 			out = append(out, "contract of "+n+" is assumed, its body is not verified")
